@@ -23,7 +23,7 @@ func init() {
 		Title: "A stream that ends or fails inside a packet is reported, never papered over",
 		Level: "fault_enumeration",
 		Rule: "for every corpus frame and EVERY cut offset k in [0,len): the scripted reader delivers exactly the first k bytes and then ends the stream (io.EOF) or fails with a fresh error value E; " +
-			"the delivered prefix is fragmented by every schedule with at most 1 (quick) / 2 (thorough) non-default Read answers (short read, zero read, last chunk delivered together with the error). " +
+			"the delivered prefix is fragmented by every schedule with at most 2 (quick) / 3 (thorough) non-default Read answers (short read, zero read, last chunk delivered together with the error). " +
 			"Required: nil packet and non-nil error; errors.Is(err,E) whenever the reader returned E; errors.Is(err,io.EOF) for k=0 with EOF. " +
 			"distinct_nontrivial = distinct (frame, k, kind, schedule) with k>0 (the fault strikes inside the frame).",
 		Assumptions: []string{
@@ -92,9 +92,9 @@ func c08Once(name string, frame []byte, k int, kind env.EndKind, c *explore.Choo
 }
 
 func runC08(x *core.Ctx) {
-	bound := 1
+	bound := 2
 	if x.Thorough() {
-		bound = 2
+		bound = 3
 	}
 	for _, f := range streamCorpus() {
 		f := f
